@@ -17,7 +17,7 @@
 //	   start j<h>: a block store written up to height h by a build without the bloom index (current-block key only).
 //	   s<n>: n times {NewBatch; SaveCurrentBlock(h); SaveBloomData(h, bloom(h)); CommitTo} for the next heights (what
 //	   saveBlockToBlockStore does for the bloom), r: Close; NewBlockStore; LoadBloomBits (what init() does).
-//	   bloom(h) has three bits (h*a, h*b+1, h/3+c mod 2048) when h >= adh, h > 0 and h % m == t, else it is empty.
+//	   bloom(h) has four bits (h*a, h*b+1, h/3+c mod 2048 and a multiplicative hash of h: distinct blooms per height) when h >= adh, h > 0 and h % m == t, else it is empty.
 //	   Output: in-memory filter start, persisted filter-start key, current height, bloomCache population, checksum of all bloom
 //	   records, checksum per indexed section of the blooms recovered from its 2048 stored bit vectors.
 //	   Predicate: (P1) every height saved at or above adh (legacy start: and at or above the filter start) reads back its bloom; (P2) every section whose last height was saved and
@@ -216,8 +216,10 @@ func containsAll(bl ethtypes.Bloom, logs []*types.StorageLog) (string, string) {
 	return "", ""
 }
 
-func bloomBit(b *ethtypes.Bloom, i int) byte { return (b[ethtypes.BloomByteLength-1-i/8] >> uint(i%8)) & 1 }
-func vecBit(v []byte, j int) byte             { return (v[j/8] >> uint(7-j%8)) & 1 }
+func bloomBit(b *ethtypes.Bloom, i int) byte {
+	return (b[ethtypes.BloomByteLength-1-i/8] >> uint(i%8)) & 1
+}
+func vecBit(v []byte, j int) byte { return (v[j/8] >> uint(7-j%8)) & 1 }
 
 // ---------- G ----------
 
@@ -461,9 +463,17 @@ func observe(bs *ledgerstore.BlockStore) bsObs {
 
 // history of one B / L line as far as the predicate needs it
 type hist struct {
-	adh      uint32
-	saved    map[uint32]ethtypes.Bloom // heights committed by the code under test, with the bloom handed to SaveBloomData / expected from the logs
-	legacyTo int64                     // heights <= legacyTo were written without bloom records (-1: none)
+	adh        uint32
+	saved      map[uint32]ethtypes.Bloom // heights committed by the code under test, with the bloom handed to SaveBloomData / expected from the logs
+	legacyTo   int64                     // heights <= legacyTo were written without bloom records (-1: none)
+	reopenedIn map[uint32]bool           // sections during which the store was reopened (their completion uses reloaded cache entries)
+}
+
+func (h *hist) noteReopen(cur uint32) {
+	if h.reopenedIn == nil {
+		h.reopenedIn = map[uint32]bool{}
+	}
+	h.reopenedIn[cur/SEC] = true
 }
 
 // checkStore evaluates P1..P3 on the implementation's own outputs
@@ -500,11 +510,15 @@ func checkStore(bs *ledgerstore.BlockStore, o bsObs, h *hist, get func(uint32) (
 			x := s*SEC + uint32(j)
 			got, err := get(x)
 			if err != nil || got != cols[j] {
-				kind := "index-has-extra-bits"
+				kind := "the index has bits the block bloom lacks"
 				if isZero(cols[j][:]) {
-					kind = "index-empty-for-nonempty-bloom"
+					kind = "the index is empty for a non-empty block bloom"
 				}
-				return "section-disagrees-with-stored-blooms:" + kind, fmt.Sprintf("section %d position %d (height %d): the bit index does not equal the stored block bloom", s, j, x)
+				when := "no-reopen"
+				if h.reopenedIn[s] {
+					when = "after-reopen" // the section was completed from bloomCache entries reloaded by LoadBloomBits
+				}
+				return "section-disagrees-with-stored-blooms:" + when, fmt.Sprintf("section %d position %d (height %d): the bit index does not equal the stored block bloom (%s)", s, j, x, kind)
 			}
 		}
 	}
@@ -544,7 +558,7 @@ func ruleBloom(adh, m, t, a, b, c uint64, h uint64) (bl ethtypes.Bloom) {
 	if h < adh || h == 0 || m == 0 || h%m != t {
 		return
 	}
-	for _, k := range []uint64{h * a % 2048, (h*b + 1) % 2048, (h/3 + c) % 2048} {
+	for _, k := range []uint64{h * a % 2048, (h*b + 1) % 2048, (h/3 + c) % 2048, (h*2654435761 + c) % 4294967296 / 2048 % 2048} {
 		bl[ethtypes.BloomByteLength-1-k/8] |= 1 << (k % 8)
 	}
 	return
@@ -635,6 +649,7 @@ func execB(f []string) hx.Result {
 			cur = uint32(c)
 			h.legacyTo = int64(c)
 			reopen()
+			h.noteReopen(cur)
 			kind += "legacy"
 		default:
 			return hx.Result{Out: "bad-op", Kind: "bad-op"}
@@ -649,6 +664,7 @@ func execB(f []string) hx.Result {
 				case op == "r":
 					reopen()
 					reopens++
+					h.noteReopen(cur)
 				case strings.HasPrefix(op, "s"):
 					n, err := strconv.ParseUint(op[1:], 10, 32)
 					if err != nil || n > 40000 {
@@ -794,6 +810,7 @@ func execL(f []string) hx.Result {
 				case op == "r":
 					reopen()
 					reopens++
+					h.noteReopen(kit.Ledger.GetCurrentBlockHeight())
 				case op == "x":
 					must(kit.Close())
 					kit = nil
@@ -802,6 +819,7 @@ func execL(f []string) hx.Result {
 					must(err)
 					kit = k
 					h.legacyTo = int64(kit.Ledger.GetCurrentBlockHeight())
+					h.noteReopen(kit.Ledger.GetCurrentBlockHeight())
 					for x := range h.saved {
 						delete(h.saved, x)
 					}
@@ -1088,7 +1106,31 @@ func genBOps(r *hx.Rand, cur uint64, budget int) string {
 	return strings.Join(ops, ";")
 }
 
+// genBMid: s<k>;r;s<rest to the section end (+ a few)> with k strictly inside the section, every height with its own bloom:
+// the section is completed from bloomCache entries reloaded by the real LoadBloomBits
+func genBMid(r *hx.Rand) string {
+	rule := fmt.Sprintf("1,0,%d,%d,%d", 1+2*r.Intn(1023), r.Intn(2048), r.Intn(2048))
+	k := 2 + r.Intn(SEC-4)
+	rest := SEC - 1 - k + r.Intn(3)
+	ops := fmt.Sprintf("s%d;r;s%d", k, rest)
+	if r.Chance(30) && rest > 2 {
+		k2 := 1 + r.Intn(rest-1)
+		ops = fmt.Sprintf("s%d;r;s%d;r;s%d", k, k2, rest-k2)
+	}
+	switch r.Intn(3) {
+	case 0:
+		return fmt.Sprintf("B 0 G %s %s", rule, ops)
+	case 1: // legacy data ends on the last height of a section
+		return fmt.Sprintf("B 0 j%d %s s1;%s", SEC*uint64(1+r.Intn(4))-1, rule, ops)
+	default: // main net, a section that lies above adh: every height carries a bloom
+		return fmt.Sprintf("B %d j%d %s s1;%s", mainADH, uint64(mainADH/SEC*SEC)+2*SEC-1, rule, ops)
+	}
+}
+
 func genB(r *hx.Rand, fresh bool, budget int) string {
+	if r.Chance(20) {
+		return genBMid(r)
+	}
 	adh := uint64(0)
 	if r.Chance(35) {
 		adh = mainADH
@@ -1149,9 +1191,12 @@ func genL(r *hx.Rand, big bool) string {
 	var ops []string
 	if big {
 		// crosses the first section boundary: logs in the first, the last and the first-after heights
-		// heights with logs: 1, 8, 4095 (last of section 0), 4096 (first of section 1), 4099
+		// heights with logs: 1, 8, 2009, 4095 (last of section 0), 4096 (first of section 1), 4099
+		// and a restart in the middle of section 0 right after a block with logs (height 2009): the section is then completed
+		// from cache entries reloaded by LoadBloomBits
 		ops = append(ops, genLBlock(r, p, salt, &counter), "n6", genLBlock(r, p, salt, &counter))
-		ops = append(ops, fmt.Sprintf("n%d", SEC-1-8-1), genLBlock(r, p, salt, &counter))
+		ops = append(ops, "n2000", genLBlock(r, p, salt, &counter), "r")
+		ops = append(ops, fmt.Sprintf("n%d", SEC-1-2009-1), genLBlock(r, p, salt, &counter))
 		if r.Bool() {
 			ops = append(ops, "r")
 		}
@@ -1218,6 +1263,10 @@ func corpus() []string {
 		"B 0 G 1,0,3,5,7 s4094;r;s1;r;s2",
 		"B 0 G 1,0,3,5,7 s4095",
 		"B 0 G 2,1,3,5,7 s1;r;s8200",
+		"B 0 G 1,0,3,5,7 s2000;r;s2095",
+		"B 0 G 1,0,1001,77,1500 s4000;r;s50;r;s46",
+		"B 0 j8191 1,0,3,5,7 s100;r;s3996",
+		fmt.Sprintf("B %d j%d 1,0,3,5,7 s700;r;s3396", mainADH, mainADH/SEC*SEC+2*SEC-1),
 		"B 0 j4096 1,0,3,5,7 s4095",
 		"B 0 j8192 1,0,3,5,7 s1;r",
 		"B 0 j10000 1,0,3,5,7 s2300;r;s4096",
